@@ -24,5 +24,5 @@ for p in "$@"; do
   grep "^VIOLATION\|^\[$p\] " $out/check_$p.log | head -4
   results="$results $p:$rc:$v:$nf"
 done
-git -C /repo checkout -- . ; git -C /repo status --short
+git -C /repo checkout -- . ; git -C /verif checkout -- coq/Batteries/Gen.v coq/Lock/Gen.v; git -C /repo status --short
 echo "$with $without $results" > $out/result.txt
